@@ -61,8 +61,10 @@ class IP(IdentityProvider):
         return self.users.get(username)
 
 
-def route_run(route, user, password_try):
-    """the four routes through the real Connection.authenticate; returns (accepted, session username)"""
+def route_run(route, user, password_try, respond=None):
+    """the four routes through the real Connection.authenticate; returns (accepted, session username).  respond(nonce), when
+    given, computes the response sent for the target account instead of the scramble of password_try"""
+    target_resp = (lambda nonce_: respond(nonce_)) if respond else (lambda nonce_: cl.native_scramble(password_try, nonce_))
     env = impl.Env(own_sleep=False)
     try:
         native = NativePasswordAuthPlugin()
@@ -89,7 +91,8 @@ def route_run(route, user, password_try):
         hs = cl.parse_handshake_v10(cl.reassemble(c.take())[0][1])
         nonce = hs["nonce"]
 
-        def answer_exchange(pw, first_payload, seq):
+        def answer_exchange(pw, first_payload, seq, sc=None):
+            sc = sc or (lambda nn: cl.native_scramble(pw, nn))
             c.feed(cl.frame(first_payload, seq))
             pk = cl.reassemble(c.take())
             seq += 2
@@ -100,16 +103,16 @@ def route_run(route, user, password_try):
                 if body[1:i] == b"mysql_clear_password":
                     c.feed(cl.frame(pw + b"\0", seq))
                 else:
-                    c.feed(cl.frame(cl.native_scramble(pw, new_nonce), seq))
+                    c.feed(cl.frame(sc(new_nonce), seq))
                 pk = cl.reassemble(c.take())
                 seq += 2
             return pk
 
         if route in ("optimistic", "switch"):
-            resp = cl.native_scramble(password_try, nonce) if route == "optimistic" else b"whatever"
+            resp = target_resp(nonce) if route == "optimistic" else b"whatever"
             # announcing another plugin forces the auth-switch round trip
             plugin = b"mysql_native_password" if route == "optimistic" else b"caching_sha2_password"
-            pk = answer_exchange(password_try, cl.handshake_response(user=b"target", auth=resp, plugin=plugin), 1)
+            pk = answer_exchange(password_try, cl.handshake_response(user=b"target", auth=resp, plugin=plugin), 1, target_resp)
         elif route.startswith("clear-login"):
             # log in through an auth switch to ANOTHER plugin (clear password), then COM_CHANGE_USER to the native account with
             # a scramble under the nonce the handshake issued (or, for the negative route, under the switch request's data)
@@ -117,7 +120,7 @@ def route_run(route, user, password_try):
             if not pk or pk[-1][1][:1] != b"\x00":
                 return None, None
             use = nonce if route == "clear-login-then-change-user-reuse" else b"0" * 20
-            resp = cl.native_scramble(password_try, use)
+            resp = target_resp(use)
             cu = bytes([cl.COM_CHANGE_USER]) + b"target\0" + bytes([len(resp)]) + resp + b"\0" + b"\x08\x00" + b"mysql_native_password\0"
             c.feed(cl.frame(cu, 0))
             pk = cl.reassemble(c.take())
@@ -128,10 +131,10 @@ def route_run(route, user, password_try):
                                  plugin=b"mysql_native_password" if route == "change-user-reuse" else b"caching_sha2_password"), 1)
             if not pk or pk[-1][1][:1] != b"\x00":
                 return None, None
-            resp = cl.native_scramble(password_try, nonce)
+            resp = target_resp(nonce)
             cu_plugin = b"mysql_native_password" if route == "change-user-reuse" else b"caching_sha2_password"
             cu = bytes([cl.COM_CHANGE_USER]) + b"target\0" + bytes([len(resp)]) + resp + b"\0" + b"\x08\x00" + cu_plugin + b"\0"
-            pk = answer_exchange(password_try, cu, 0)
+            pk = answer_exchange(password_try, cu, 0, target_resp)
         ok = bool(pk) and pk[-1][1][:1] == b"\x00"
         return ok, (sess[0].username if sess else None)
     finally:
@@ -252,6 +255,16 @@ def run(ctx: core.Ctx):
         other = bytes(rng.choice(MU.SAFE_NONCE_CHARS) for _ in range(20))
         for label, resp in responses_for(rng, pw, old, nonce, other, ctx.quick):
             cases.append((auth, oldauth, nonce, resp, label, pw))
+    # accounts whose stored hash is the SHA-1 of a string shorter than a digest (nothing create_auth_string produces, but a
+    # 40-digit hexadecimal auth_string like any other): the response "string XOR digest", as short as the string, is no scramble
+    for short in (b"", b"abc", b"0123456789012345678"):
+        auth = hashlib.sha1(short).hexdigest()
+        nonce = bytes(rng.choice(MU.SAFE_NONCE_CHARS) for _ in range(20))
+        d = hashlib.sha1(nonce + bytes.fromhex(auth)).digest()
+        r = bytes(x ^ y for x, y in zip(short, d))
+        cases.append((auth, None, nonce, r, "short-preimage", None))
+        cases.append((None, auth, nonce, r, "short-preimage", None))
+        cases.append((auth, None, nonce, r + d[len(short):], "short-preimage-padded", None))
     # responses whose last / first byte is zero, cut there (a client that treats the response as a C string sends these):
     # search nonces until the exact scramble ends (begins) with 0x00
     for pw in ("pw", "päss wörd"):
@@ -286,7 +299,10 @@ def run(ctx: core.Ctx):
         if got != m:
             disagreements.append(dict(kind="password_matches", auth=a, old=o, nonce=list(n), response=list(r), label=label, impl=got, model=m))
         # the property itself, for well-formed accounts
-        wellformed = a is not None and len(a) == 40 and a == NativePasswordAuthPlugin.create_auth_string(pw)
+        wellformed = pw is not None and a is not None and len(a) == 40 and a == NativePasswordAuthPlugin.create_auth_string(pw)
+        if got and len(r) < 20 and not (r == b"" and a in (None, "")) and witness is None:
+            # "only if its first 20 bytes are such a scramble": a response shorter than a scramble is none, whatever is stored
+            witness = dict(kind="password_matches-short-response", auth=a, old=o, label=label, accepted=True, expected=False, nonce=list(n), response=list(r))
         if wellformed:
             should = label in ("exact", "junk-extended", "old-password")
             if label == "old-password" and o is None:
@@ -340,6 +356,16 @@ def run(ctx: core.Ctx):
                 nroute += 1
                 if ok:
                     witness = witness or dict(kind="route-undecodable-account", route=route, auth_string=bad, password_try=attempt.decode(), accepted=True)
+    # a response shorter than a scramble, for an account whose stored hash it would reach through the truncating XOR
+    for route in routes:
+        for short in (b"", b"abc"):
+            auth = hashlib.sha1(short).hexdigest()
+            user = User(name="target", auth_string=auth, auth_plugin="mysql_native_password")
+            ok, uname = route_run(route, user, b"", respond=lambda nn, short=short, auth=auth: bytes(
+                x ^ y for x, y in zip(short, hashlib.sha1(nn + bytes.fromhex(auth)).digest())))
+            nroute += 1
+            if ok:
+                witness = witness or dict(kind="route-short-response", route=route, auth_string=auth, response_length=len(short), accepted=True, expected=False)
     rp, nrp = replay_probe()
     nroute += nrp
     if rp and witness is None:
